@@ -131,7 +131,7 @@ func HNameRoundTrip() {
 }
 
 // vGenAnyTransform: a transform with symbolic identifier and attribute, in one of the forms a decoder
-// or builder produces.  form 0 absent, 1 TV, 2 TLV (1..3 value octets).
+// or builder produces.  form 0 absent, 1 TV, 2 TLV (1..3 value octets), 3 TLV (16..256 value octets).
 func vGenAnyTransform(ttype uint8, form int) *message.Transform {
 	t := &message.Transform{TransformType: ttype, TransformID: vr.U16()}
 	switch form {
@@ -142,6 +142,11 @@ func vGenAnyTransform(ttype uint8, form int) *message.Transform {
 		t.AttributePresent, t.AttributeFormat = true, message.AttributeFormatUseTLV
 		t.AttributeType = vr.U16() & 0x7fff
 		t.VariableLengthAttributeValue = vr.Bytes(vr.IntOf(1, 2, 3))
+	case 3:
+		// TLV whose value length coincides with a key size in octets or bits
+		t.AttributePresent, t.AttributeFormat = true, message.AttributeFormatUseTLV
+		t.AttributeType = vr.U16() & 0x7fff
+		t.VariableLengthAttributeValue = vr.Bytes(vr.IntOf(16, 24, 32, 128, 192, 256))
 	}
 	return t
 }
